@@ -55,3 +55,8 @@ def re_match_(pattern, s):
 
 def nfkc(s):
     return unicodedata.normalize("NFKC", s)
+
+
+def CUT(name):
+    """marker of a cut point in a specification (no effect when the specification is run)"""
+    return None
